@@ -326,6 +326,20 @@ def dy(r, lo, hi, bits):
 
 GROUPS2 = [(1.0, 1.0), (1.0, 3.0), (3.0, 1.0), (2.0, 2.0)]
 
+# The model's step number is an unbounded integer (Z); the code's is cvm::step_number = long long and must be narrowed
+# nowhere.  That is part of the tie: first steps are drawn from small numbers AND from around 2^31, 2^32, 2^40, 2^53 and
+# just below 2^62 (OCaml's native int of the driver ends at 2^62 - 1), factors include non powers of two (2^32 mod 3, 5, 6,
+# 7, 12 are all != 0, so a 32-bit copy of the step changes the schedule).
+FACTORS = [1, 1, 2, 2, 3, 4, 5, 6, 7, 12]
+FACTORS_MTS = [2, 3, 4, 5, 6, 7, 12]
+
+
+def pick_it0(r, small=(0, 0, 0, 0, 1, 2, 3, 5, 7, 12)):
+    if r.random() < 0.5:
+        return r.choice(small)
+    base = r.choice([2 ** 31, 2 ** 31, 2 ** 32, 2 ** 32, 2 ** 40, 2 ** 53, 2 ** 62 - 64])
+    return base + r.randint(-14, 14)
+
 
 def gen_scenario(r, k, family="mix"):
     natoms = r.randint(2, 5)
@@ -357,7 +371,7 @@ def gen_scenario(r, k, family="mix"):
                           "np": r.choice([1, 1, 1, 2, 2, 3])})
         vt = 1
         if family in ("mix", "vartsf") and r.random() < (0.25 if family == "mix" else 0.8):
-            vt = r.choice([2, 3, 4])
+            vt = r.choice([2, 3, 4, 5, 6, 7])
         vars_.append({"tsf": vt, "w": r.choice([0.5, 1.0, 2.0]), "comps": comps})
     nb = r.randint(1, 4) if family != "impulse" else 1
     biases = []
@@ -365,7 +379,7 @@ def gen_scenario(r, k, family="mix"):
         kind = r.choice(["H", "H", "H", "L", "W", "A", "G"]) if family != "impulse" else r.choice(["H", "L", "W", "A"])
         nvb = 1 if (kind == "A" or nv == 1 or r.random() < 0.6) else 2
         bv = r.sample(range(nv), nvb)
-        tsf = r.choice([1, 1, 2, 2, 3, 4]) if family != "impulse" else r.choice([2, 3, 4])
+        tsf = r.choice(FACTORS) if family != "impulse" else r.choice(FACTORS_MTS)
         b = {"kind": kind, "tsf": tsf, "vars": bv, "k": r.choice([0.5, 1.0, 2.0, 4.0])}
         if kind in ("H", "L", "W"):
             b["centers"] = [dy(r, -4, 4, 2) for _ in bv]
@@ -373,8 +387,10 @@ def gen_scenario(r, k, family="mix"):
             b["stop"] = dy(r, -6, 6, 1)
             b["dec"] = r.random() < 0.5
         biases.append(b)
-    it0 = r.choice([0, 0, 0, 0, 1, 2, 3, 5, 7, 12])
+    it0 = pick_it0(r)
     nsteps = r.randint(6, 14)
+    if family == "impulse":
+        nsteps = max(nsteps, 2 * max(b["tsf"] for b in biases) + r.randint(1, 4))
     events = []
     pos = [[dy(r, -4, 4, 2) for _ in range(3)] for _ in range(natoms)]
     for s in range(nsteps):
@@ -818,7 +834,7 @@ def nonbiasing_scenario(r, k):
 def ext_scenario(r, k):
     """an extended-Lagrangian variable (factor n) with harmonicWalls (bypassExtendedLagrangian, fb_actual) and a harmonic
     restraint (fb, acts on the extended coordinate), both with factor n; runs A+B, A (walls), B (harmonic) and 0 (no bias)"""
-    n = r.choice([1, 1, 2, 3])
+    n = r.choice([1, 1, 2, 3, 5])
     v = {"tsf": n, "w": 1.0, "extra": ["extendedLagrangian on", "extendedFluctuation 0.5", "extendedTimeConstant 200",
                                        "extendedTemp 300", "extendedLangevinDamping 0"],
          "comps": [{"main": [0], "ref": [], "axis": 2, "coeff": 1.0, "np": 1}]}
@@ -827,7 +843,7 @@ def ext_scenario(r, k):
     ev = []
     for s_ in range(r.randint(3, 5) * n + 1):
         ev.append(("S", [[0.0, 0.0, dy(r, -3, 3, 2)], [0.0, 0.0, 0.0]]))
-    return {"id": k, "family": "ext", "natoms": 2, "mass": [1.0, 1.0], "vars": [v], "biases": biases, "it0": 0,
+    return {"id": k, "family": "ext", "natoms": 2, "mass": [1.0, 1.0], "vars": [v], "biases": biases, "it0": pick_it0(r),
             "events": ev, "A": [0], "B": [1], "zero_run": True}
 
 
@@ -894,7 +910,7 @@ def scripted_scenario(r, k):
     for s_ in range(r.randint(6, 10)):
         g = [dy(r, -4, 4, 2) if r.random() < 0.8 else None for _ in range(nv)]
         ev.append(("S", [[0.0, 0.0, dy(r, -3, 3, 2)] for _ in range(2)] + [[0.0, 0.0, 0.0]], None, g))
-    return {"id": k, "family": "scripted", "natoms": 3, "mass": [1.0, 1.0, 1.0], "vars": vars_, "biases": biases, "it0": 0,
+    return {"id": k, "family": "scripted", "natoms": 3, "mass": [1.0, 1.0, 1.0], "vars": vars_, "biases": biases, "it0": pick_it0(r),
             "events": ev, "A": list(range(len(biases))), "B": [], "script_runs": ["AB", "B"], "force_B": True,
             "after_biases": r.random() < 0.5}
 
@@ -977,7 +993,7 @@ def scaled_scenario(r, k):
     v = {"tsf": 1, "w": w, "lo": lo, "hi": lo + nb * w, "comps": [{"main": [0], "ref": [], "axis": 2, "coeff": r.choice([1.0, 2.0]), "np": 1}]}
     biases = []
     for _ in range(r.randint(1, 2)):
-        b = {"kind": r.choice(["H", "L", "W", "A"]), "tsf": r.choice([1, 2, 3]), "vars": [0], "k": r.choice([1.0, 2.0]), "centers": [dy(r, -1, 1, 2)],
+        b = {"kind": r.choice(["H", "L", "W", "A"]), "tsf": r.choice([1, 2, 3, 5, 6]), "vars": [0], "k": r.choice([1.0, 2.0]), "centers": [dy(r, -1, 1, 2)],
              "stop": 4.0, "dec": False}
         if r.random() < 0.8:
             b["grid"] = {"lo": lo, "w": w, "vals": [r.choice([0.0, 0.5, 1.0, 2.0, 3.0]) for _ in range(nb)]}
@@ -989,7 +1005,7 @@ def scaled_scenario(r, k):
         z = x / v["comps"][0]["coeff"]
         ev.append(("S", [[0.0, 0.0, z], [0.0, 0.0, 0.0]]))
     nbs = len(biases)
-    return {"id": k, "family": "scaled", "natoms": 2, "mass": [1.0, 1.0], "vars": [v], "biases": biases, "it0": r.choice([0, 0, 3]),
+    return {"id": k, "family": "scaled", "natoms": 2, "mass": [1.0, 1.0], "vars": [v], "biases": biases, "it0": pick_it0(r, (0, 0, 3)),
             "events": ev, "A": [0], "B": list(range(1, nbs))}
 
 
@@ -1001,10 +1017,10 @@ def vector_scenario(r, k):
     if len(g2) == 2:
         mass[1], mass[2] = r.choice(GROUPS2)
     v = {"tsf": 1, "w": r.choice([0.5, 1.0, 2.0]), "comps": [], "vec": {"g1": [0], "g2": g2, "coeff": r.choice([1.0, 2.0, -1.0, 0.5])}}
-    biases = [{"kind": "H", "tsf": r.choice([1, 2, 3]), "vars": [0], "k": r.choice([0.5, 1.0, 2.0]),
+    biases = [{"kind": "H", "tsf": r.choice([1, 2, 3, 5, 6]), "vars": [0], "k": r.choice([0.5, 1.0, 2.0]),
                "vcenter": [dy(r, -2, 2, 2) for _ in range(3)]} for _ in range(2)]
     ev = [("S", [[dy(r, -3, 3, 2) for _ in range(3)] for _ in range(3)]) for _ in range(r.randint(6, 10))]
-    return {"id": k, "family": "vector", "natoms": 3, "mass": mass, "vars": [v], "biases": biases, "it0": r.choice([0, 0, 2, 5]),
+    return {"id": k, "family": "vector", "natoms": 3, "mass": mass, "vars": [v], "biases": biases, "it0": pick_it0(r, (0, 0, 2, 5)),
             "events": ev, "A": [0], "B": [1]}
 
 
@@ -1053,13 +1069,13 @@ def coupling_scenario(r, k):
     v = {"tsf": 1, "w": r.choice([0.5, 1.0, 2.0]), "extra": ["subtractAppliedForce on", "outputTotalForce on"],
          "comps": [{"main": [0], "ref": [], "axis": 2, "coeff": 1.0, "np": 1, "onesite": True}]}
     # ordinary (fb) and bypassing (harmonicWalls: fb_actual) biases mixed; the trajectory crosses the walls
-    biases = [{"kind": r.choice(["H", "W", "W"]), "tsf": r.choice([1, 1, 2, 3]), "vars": [0], "k": r.choice([0.5, 1.0, 2.0]), "centers": [dy(r, -2, 1, 2)]},
+    biases = [{"kind": r.choice(["H", "W", "W"]), "tsf": r.choice([1, 1, 2, 3, 5]), "vars": [0], "k": r.choice([0.5, 1.0, 2.0]), "centers": [dy(r, -2, 1, 2)]},
               {"kind": r.choice(["H", "L", "W"]), "tsf": r.choice([1, 2]), "vars": [0], "k": r.choice([1.0, 2.0]), "centers": [dy(r, -2, 1, 2)]}]
     ev = []
     for s_ in range(r.randint(6, 10)):
         z = dy(r, -3, 3, 2)
         ev.append(("S", [[0.0, 0.0, z], [0.0, 0.0, 0.0]], [[0.0, 0.0, dy(r, -4, 4, 3)], [0.0, 0.0, 0.0]]))
-    return {"id": k, "family": "coupling", "natoms": 2, "mass": [1.0, 1.0], "vars": [v], "biases": biases, "it0": 0,
+    return {"id": k, "family": "coupling", "natoms": 2, "mass": [1.0, 1.0], "vars": [v], "biases": biases, "it0": pick_it0(r, (0,)),
             "events": ev, "A": [0], "B": [1], "samestep": False, "showtf": True}
 
 
